@@ -167,4 +167,6 @@ def check(facts, rep, tier, cfg):
             k5 += 1
             rep.bad("C12.R5", v["key"].split("/", 1)[1], v["where"], v["msg"])
     rep.floor("C12.R5", "stream-closing cells", k5, 2)
-
+    rep.rule("C12.S7", "who-may: the functions that touch the critical resources behind this property are those of the reference tree (flow table, closed flag, per-stream / datagram / outbound queues, last-pong timestamp, client id maps, shared TLS identity)")
+    import whomay
+    whomay.check(facts, rep, "C12.S7", "C12")
